@@ -28,7 +28,7 @@ MUT_CL = ["dup_cl_same", "dup_cl_diff", "cl_list_same", "cl_list_diff", "cl_plus
 MUT_TE = ["te_case", "te_pad", "te_cl_both", "te_gzip", "te_identity", "te_gzip_chunked", "te_chunked_gzip",
           "te_chunked_chunked", "te_two_fields", "te_vt", "te_xchunked", "te_empty_elem_lead", "te_empty_elem_trail",
           "te_param", "te_on_10", "te_on_10_keepalive", "te_underscore_alias", "te_on_versionless"]
-MUT_CHUNK = ["csize_leading_crlf", "csize_empty", "csize_plus", "csize_0x", "csize_ws_before", "csize_ws_after", "csize_bare_lf",
+MUT_CHUNK = ["csize_junk_then_ext", "csize_bws_then_ext", "csize_leading_crlf", "csize_empty", "csize_plus", "csize_0x", "csize_ws_before", "csize_ws_after", "csize_bare_lf",
              "csize_nonascii", "csize_huge", "csize_upper", "csize_leading_zeros", "csize_underscore", "csize_vt",
              "cext_valid_token", "cext_valid_noval", "cext_valid_quoted", "cext_semicolon_only", "cext_no_name",
              "cext_empty_val", "cext_unterminated_quote", "cext_ctl", "cext_lf", "cext_bws", "cext_bws2",
@@ -43,7 +43,7 @@ STRICT_REJECT = set("""hdr_bare_lf_term hdr_bare_cr_term hdr_lf_in_value hdr_cr_
  te_gzip te_identity te_gzip_chunked te_chunked_gzip te_chunked_chunked te_two_fields te_vt te_xchunked
  csize_empty csize_plus csize_0x csize_ws_before csize_ws_after csize_bare_lf csize_nonascii csize_huge
  csize_underscore csize_vt cext_semicolon_only cext_no_name cext_empty_val cext_unterminated_quote cext_ctl cext_lf
- cdata_no_crlf cdata_lf_only cdata_cr_only last_bare_lf csize_leading_crlf trailer_bare_lf trailer_no_colon trailer_ws_before_colon
+ cdata_no_crlf cdata_lf_only cdata_cr_only last_bare_lf csize_leading_crlf csize_junk_then_ext trailer_bare_lf trailer_no_colon trailer_ws_before_colon
  trailer_bad_name trailer_end_lf trailer_ctl""".split())
 ACCEPT_VARIANTS = set("""te_case te_pad cl_leading_zeros cl_underscore_alias te_underscore_alias csize_upper
  csize_leading_zeros cext_valid_token cext_valid_noval cext_valid_quoted last_ext last_00 trailer_valid""".split())
@@ -314,7 +314,7 @@ def apply_mutation(m, label, W):
             }[label]
             ov["te_value"] = te
             if label == "te_cl_both":
-                ov["extra_cl"] = W.choice([b"%d" % len(m["body"]), b"0", b"3"])
+                ov["extra_cl"] = W.choice([b"%d" % len(m["body"]), b"0", b"3", b"", b" ", b"abc"])
                 V = either(must_close=True)
             elif label == "te_two_fields":
                 ov["te_twice"] = True
@@ -333,7 +333,15 @@ def apply_mutation(m, label, W):
         c = m["chunks"][W.draw(len(m["chunks"]))]
         n = len(c["data"])
         hx = b"%X" % n
-        if label == "csize_leading_crlf":
+        if label == "csize_junk_then_ext":
+            # LF / CR / VT / FF between the size and a syntactically valid extension
+            c["size"] = hx + W.choice([b"\n", b"\r", b"\x0b", b"\x0c", b"\n\x0b"])
+            c["ext"] = W.choice([b";ext=1", b";a", b';q="v"'])
+        elif label == "csize_bws_then_ext":
+            c["size"] = hx + W.choice([b" ", b"\t", b"  "])
+            c["ext"] = W.choice([b";ext=1", b";a"])
+            V = either()
+        elif label == "csize_leading_crlf":
             # an empty line in front of an otherwise valid chunk-size line
             c["size"] = b"\r\n" + hx
         elif label == "csize_empty":
